@@ -388,6 +388,37 @@ fn one_response(rt: &tokio::runtime::Runtime, cat: &Catalog, req: &[u8], proto: 
     }
 }
 
+/// The same request through the production front door (`ServerContext::handle_raw_request` ->
+/// `handle_request` -> `Catalog`, reached by the hook `Server::verif_handle_raw_request`): the
+/// plumbing of protocol and destination into the `ResponseHandle` is inside the system.
+fn front_door_response(
+    rt: &tokio::runtime::Runtime,
+    server: &hickory_server::Server<Catalog>,
+    req: &[u8],
+    proto: Protocol,
+) -> Result<Vec<u8>, String> {
+    use futures_util::StreamExt;
+    use hickory_net::BufDnsStreamHandle;
+    use hickory_proto::op::SerialMessage;
+    let src: std::net::SocketAddr = "192.0.2.77:5353".parse().unwrap();
+    let r = catch(|| {
+        rt.block_on(async {
+            let (handle, mut rx) = BufDnsStreamHandle::new(src);
+            server.verif_handle_raw_request(SerialMessage::new(req.to_vec(), src), proto, handle).await;
+            let mut out = vec![];
+            while let Some(m) = rx.next().await {
+                out.push(m.into_parts().0);
+            }
+            out
+        })
+    });
+    match r {
+        Err(p) => Err(format!("panic:{}", vcore::short_loc(&p.loc))),
+        Ok(mut v) if v.len() == 1 => Ok(v.pop().unwrap()),
+        Ok(v) => Err(format!("response-count:{}", v.len())),
+    }
+}
+
 fn well_formed(bytes: &[u8]) -> Result<(vref::wire::Walk, Message), (String, String)> {
     let w = vref::wire::walk(bytes).map_err(|e| ("server-walker-rejects".to_string(), format!("{e:?}")))?;
     if w.consumed != bytes.len() {
@@ -401,7 +432,7 @@ fn well_formed(bytes: &[u8]) -> Result<(vref::wire::Walk, Message), (String, Str
 }
 
 /// Judge one (zone, query, payload): UDP response against the TCP response to the same bytes.
-fn run_srv_case(z: &SrvZone, cat: &Catalog, q: &SrvQuery, payload: i32, rt: &tokio::runtime::Runtime, l: &mut Local) {
+fn run_srv_case(z: &SrvZone, cat: &Catalog, front: Option<&hickory_server::Server<Catalog>>, q: &SrvQuery, payload: i32, rt: &tokio::runtime::Runtime, l: &mut Local) {
     l.eval();
     let req = request_bytes(q, payload);
     let wit = |extra: Value| {
@@ -423,6 +454,26 @@ fn run_srv_case(z: &SrvZone, cat: &Catalog, q: &SrvQuery, payload: i32, rt: &tok
             return;
         }
     };
+    if let Some(server) = front {
+        // production construction path: the front door must send exactly the same octets
+        for (proto, direct, tag) in [(Protocol::Udp, &udp, "udp"), (Protocol::Tcp, &full, "tcp")] {
+            match front_door_response(rt, server, &req, proto) {
+                Ok(b) if &b == direct => l.outcome("server-front-door:identical"),
+                Ok(b) => {
+                    l.violation(
+                        &format!("server-front-door-differs:{tag}"),
+                        &format!("the front door sent {} octets, the direct catalog path {} for the same request", b.len(), direct.len()),
+                        || wit(json!({"front_len": b.len(), "direct_len": direct.len()})),
+                    );
+                    return;
+                }
+                Err(k) => {
+                    l.violation(&format!("server-front-door-{k}:{tag}"), "no single response through the front door", || wit(json!(null)));
+                    return;
+                }
+            }
+        }
+    }
     if full.len() > 65535 {
         l.violation("server-over-limit:tcp", &format!("{} bytes over TCP", full.len()), || wit(json!(null)));
         return;
@@ -737,7 +788,8 @@ fn main() {
                         qtype: RecordType::from(case["qtype"].as_u64().unwrap() as u16),
                         dnssec_ok: case["do"].as_bool().unwrap_or(false),
                     };
-                    run_srv_case(&z, &cat, &q, case["payload"].as_i64().unwrap() as i32, &rt, l);
+                    let front = hickory_server::Server::new(build_catalog(&z));
+                    run_srv_case(&z, &cat, Some(&front), &q, case["payload"].as_i64().unwrap() as i32, &rt, l);
                 }
             } else {
                 let (c, limit) = Case::from_json(&case);
@@ -825,6 +877,7 @@ fn main() {
         |i, l, rt| {
             let z = &zones[i as usize];
             let cat = build_catalog(z);
+            let front = hickory_server::Server::new(build_catalog(z));
             for q in srv_queries(z) {
                 // length of the complete response decides the payload sweep: EVERY payload value
                 // from 512 to len+2 (<= 1500 densely, then stepped), plus the boundary values
@@ -833,7 +886,9 @@ fn main() {
                     Err(_) => 512,
                 };
                 for p in srv_payloads(full_len) {
-                    run_srv_case(z, &cat, &q, p, rt, l);
+                    // the front door is compared on the boundary payloads and every 16th of the dense sweep
+                    let fd = p < 512 || p % 16 == 0 || (p as usize + 2 >= full_len && p as usize <= full_len + 2) || [1232, 4096, 65535].contains(&p);
+                    run_srv_case(z, &cat, if fd { Some(&front) } else { None }, &q, p, rt, l);
                 }
                 if i % 7 == 0 && q.dnssec_ok {
                     l.sample(srv_json(z, &q, full_len as i32 - 1));
